@@ -344,6 +344,28 @@ impl AssemblyCode {
                 }
             }
 
+            // Is the instruction after `second` a conditional branch? An instruction whose flags
+            // such a branch tests can't be dropped
+            let mut followed_by_branch = false;
+            loop {
+                match iter.peek() {
+                    Some(AsmLine::Instruction(i3)) => {
+                        followed_by_branch = matches!(
+                            i3.mnemonic,
+                            AsmMnemonic::BEQ
+                                | AsmMnemonic::BNE
+                                | AsmMnemonic::BCC
+                                | AsmMnemonic::BCS
+                                | AsmMnemonic::BMI
+                                | AsmMnemonic::BPL
+                        );
+                        break;
+                    }
+                    Some(AsmLine::Dummy) | Some(AsmLine::Comment(_)) => continue,
+                    _ => break,
+                }
+            }
+            iter.reset_peek();
             // Analyze pairs of instructions
             if let Some(AsmLine::Instruction(i1)) = &first {
                 if let Some(AsmLine::Instruction(i2)) = &second {
@@ -449,28 +471,6 @@ impl AssemblyCode {
                     {
                         swap_both = true;
                     }
-                    // The flags set by a compare may be tested by more than one branch: the
-                    // compare and its branch can only be dropped if no other branch follows
-                    let mut followed_by_branch = false;
-                    loop {
-                        match iter.peek() {
-                            Some(AsmLine::Instruction(i3)) => {
-                                followed_by_branch = matches!(
-                                    i3.mnemonic,
-                                    AsmMnemonic::BEQ
-                                        | AsmMnemonic::BNE
-                                        | AsmMnemonic::BCC
-                                        | AsmMnemonic::BCS
-                                        | AsmMnemonic::BMI
-                                        | AsmMnemonic::BPL
-                                );
-                                break;
-                            }
-                            Some(AsmLine::Dummy) | Some(AsmLine::Comment(_)) => continue,
-                            _ => break,
-                        }
-                    }
-                    iter.reset_peek();
                     // Check CMP and remove the branck if the result is obvious
                     if let Some(r) = &accumulator {
                         if r.starts_with("#")
@@ -603,8 +603,8 @@ impl AssemblyCode {
                             }
                             if let Some(v) = &x_register {
                                 if v.eq(&inst.dasm_operand) {
-                                    // Remove this instruction
-                                    remove_second = !inst.protected;
+                                    // Remove this instruction (unless a branch needs its flags)
+                                    remove_second = !inst.protected && !followed_by_branch;
                                 }
                             }
                             x_register = Some(inst.dasm_operand.clone());
@@ -623,8 +623,8 @@ impl AssemblyCode {
                             }
                             if let Some(v) = &y_register {
                                 if v.eq(&inst.dasm_operand) {
-                                    // Remove this instruction
-                                    remove_second = !inst.protected;
+                                    // Remove this instruction (unless a branch needs its flags)
+                                    remove_second = !inst.protected && !followed_by_branch;
                                 }
                             }
                             y_register = Some(inst.dasm_operand.clone());
